@@ -151,10 +151,11 @@ def eval_cases(ck, name, cases, hashes):
     if not d or not m or not v or not h:
         return None, None, None, out
     ints = lambda s: [int(x) for x in re.findall(r"-?\d+", s or "")]
-    y = re.search(r"Y = \((\d+), (\d+)\)", flat)
+    y = re.search(r"Y = \((\d+), (\d+), (\d+)\)", flat)
     if y:
         ck.extra["hypothesis_checked"] = ck.extra.get("hypothesis_checked", 0) + int(y.group(1))
         ck.extra["hypothesis_holds"] = ck.extra.get("hypothesis_holds", 0) + int(y.group(2))
+        ck.extra["observed_trees_meeting_levels_nest_hypotheses"] = ck.extra.get("observed_trees_meeting_levels_nest_hypotheses", 0) + int(y.group(3))
     if ints(d.group(1)):
         return None, None, None, "cases at positions %s of %s did not decode (wire format / rd_case out of step)" % (ints(d.group(1)), name)
     vv = ints(v.group(1))
@@ -207,7 +208,7 @@ def run_corr(ck):
     ok, out = ck.coq_make(["model/ProfCase.vo"])
     if not ck.obligation("coq/model/ProfCase.v (case decoder and oracles) compiles", ok, out[-800:]):
         return
-    n = ck.n(300, 9000)
+    n = ck.n(250, 7500)
     cases = []
     corpus = os.path.join(HERE, "corpus", "C16", "cases.jsonl")
     if os.path.exists(corpus):
@@ -302,6 +303,10 @@ def run_corr(ck):
                             "projection; rows: synthetic well-formed and adversarial row lists to the reader alone; non-trivial = >= 3 stored nodes "
                             "and >= 3 levels, distinct by input content. ")
     ck.extra["input_distribution"] = hist
+    deep = [max([len(s["stack"]) for p in (c["profs"] or []) for s in (p["samples"] or [])] or [0]) for c in tcases]
+    ck.extra["cases_with_a_stack_deeper_than_511"] = sum(1 for d in deep if d > 511)
+    ck.obligation("the run contains stacks deeper than 511 frames (beyond the levels a node id can carry)",
+                  any(d > 511 for d in deep), "no generated or corpus case crossed the depth clamp")
     ck.add_samples([slim(c) for c in tcases if case_size(c) < 40][:3])
 
 
